@@ -11,7 +11,7 @@ PROPERTY_ID = "C03"
 LEVEL = "exploration"
 RULE = (
     "every byte string written for Hypothesis-generated projects and synths (the C01/C02 recipe strategies with their own seed stream: all 42 "
-    "types swept per shard with all controllers assigned, random modules, projects with links/patterns/gaps/embedded projects/samplers) is "
+    "types swept per shard with all controllers assigned, random modules, MetaModules nested 2-4 levels deep, projects with links/patterns/gaps/embedded projects/samplers) is "
     "decoded by vlib.refcodec, an independent decoder built from docs/sunvox-file-format.rst and the YAML only. Oracle: (1) structural rules "
     "(exact tiling, empty header chunk first, documented chunk order/widths, PEND/SEND termination, SNAM 32 bytes, PDTA = lines x tracks x 8, "
     "one CVAL per attached controller and 8 CMID bytes each, reserved CMID bytes, CHNK covers every CHNM, options chunk covers the highest "
